@@ -10,7 +10,8 @@ EXTENDS Selection, FiniteSetsExt, SequencesExt, TLC, Json
 
 CONSTANTS MaxPop,    \* populations of 0..MaxPop individuals for best/worst/random/tournament
           LexPop,    \* populations of 0..LexPop individuals for lexicase
-          LexCases   \* result vectors of length 0..LexCases
+          LexCases,  \* result vectors of length 0..LexCases
+          PermCases  \* case counts m for which the order-revealing population PermPop(m) is included
 
 VARIABLES case, phase, res
 mcvars == <<case, phase, res>>
@@ -23,6 +24,11 @@ LexPops ==
        UNION {UNION {[1..n -> {Ind(0, v) : v \in Vecs(m)}] : n \in 0..LexPop} : m \in 0..LexCases}
   \cup [1..2 -> {Ind(0, v) : v \in UNION {Vecs(m) : m \in 0..LexCases}}]   \* ragged result vectors
 Ladder(n) == [i \in 1..n |-> Ind(i, <<>>)]        \* distinct scores 1..n
+(* one individual per arrangement of the values 0..m-1 over m cases: every   *)
+(* case order has its own unique winner, so the winner law IS the law of the *)
+(* case order (uniform over the m! orders)                                   *)
+PermPop(m) == LET vs == SetToSeq({v \in [1..m -> 0..(m - 1)] : \A a, b \in 1..m : a # b => v[a] # v[b]})
+              IN [i \in 1..Len(vs) |-> Ind(0, vs[i])]
 
 Cases ==
        {[sel |-> s, pop |-> p] : s \in {"best", "worst", "random"}, p \in ScorePops}
@@ -30,6 +36,7 @@ Cases ==
   \cup {[sel |-> "tournament", k |-> k, pop |-> Ladder(n)] : n \in 5..6, k \in 1..6}
   \cup {[sel |-> "lexicase", pol |-> pol, c |-> c, pop |-> p] :
            pol \in {"score", "error"}, c \in 0..(LexCases + 1), p \in LexPops}
+  \cup {[sel |-> "lexicase", pol |-> pol, c |-> m, pop |-> PermPop(m)] : pol \in {"score", "error"}, m \in PermCases}
 
 Outcomes(c) ==
   CASE c.sel = "best"   -> BestOutcomes(c.pop)
@@ -121,6 +128,7 @@ LexWeight(c, i) ==
 
 IsLawCase(c) ==
   \/ (c.sel = "tournament" /\ c.k <= Len(c.pop) /\ Len(c.pop) >= 2 /\ DistinctScores(c.pop))
+  \/ (c.sel = "lexicase" /\ Len(c.pop) >= 6)
   \/ (c.sel = "lexicase" /\ Len(c.pop) >= 2 /\ c.pol = "score"
       /\ \A i \in Idx(c.pop) : Len(c.pop[i].res) = c.c
       /\ \/ Cardinality({LexOutcomesFor(c.pop, c.pol, c.c, ord) : ord \in CaseOrders(c.c)}) >= 2
